@@ -45,15 +45,16 @@ def gen(r, tier, i):
         else:
             given.append([p, v + 1])
     case['given'] = given
+    case['probe_is_step'] = r.random() < 0.4       # the declaring process is a Step (listed under steps)
     case['conflict'] = {'key': r.choice(['_value', '_units', '_serializer', '_default', '_updater']),
                         'same': r.random() < 0.4}
     return case
 
 
-def make_probe():
-    from vivarium.core.process import Process
+def make_probe(step=False):
+    from vivarium.core.process import Process, Step
 
-    class Probe(Process):
+    class Probe(Step if step else Process):
         def ports_schema(self):
             return copy.deepcopy(self.parameters['schema'])
 
@@ -80,26 +81,47 @@ def run(spec):
     ppath = tuple(spec['ppath'])
     lv = topo.leaves_of(spec)
     given = {tuple(p): v for p, v in spec['given']}
-    Probe = make_probe()
+    is_step = bool(spec.get('probe_is_step'))
+    Probe = make_probe(is_step)
+    Owner = make_probe(False)
     osch, otop = topo.owner_parts(spec)
 
     def parts(own_initial=None, own_owner=None):
-        procs = nest({ppath: Probe({'schema': schema, 'own_initial': own_initial or {}})})
+        probe = nest({ppath: Probe({'schema': schema, 'own_initial': own_initial or {}})})
+        procs, steps = ({}, probe) if is_step else (probe, {})
         tops = nest({ppath: tp})
         if osch:
-            owner = Probe({'schema': osch, 'own_initial': own_owner or {}})
+            owner = Owner({'schema': osch, 'own_initial': own_owner or {}})
             if spec.get('owner_first'):
                 procs = dict({'owner': owner}, **procs)
             else:
                 procs['owner'] = owner
             tops['owner'] = otop
-        return procs, tops
+        elif is_step:
+            # the engine needs at least one entry under processes or steps with the topology; a no-port process
+            procs['idle'] = Owner({'schema': {}})
+            tops['idle'] = {}
+        MemberStep = make_probe(True)
+        for mpath, msch, mtop, mstep in topo.member_parts(spec):
+            inst = (MemberStep if mstep else Owner)({'schema': msch})
+            tgt = steps if mstep else procs
+            node = tgt
+            for k in mpath[:-1]:
+                node = node.setdefault(k, {})
+            node[mpath[-1]] = inst
+            node = tops
+            for k in mpath[:-1]:
+                node = node.setdefault(k, {})
+            node[mpath[-1]] = mtop
+        return procs, steps, tops
 
     given_tree = nest(given) if given else {}
     # the tree the resolver sees for glob children: children named in the initial state or owned
     known = dict(given)
     for p in spec.get('owned', []):
         known.setdefault(tuple(p), lv[tuple(p)])
+    for mpath, msch, mtop, mstep in topo.member_parts(spec):
+        known.setdefault(mpath[:-1] + ('x',), msch['M']['x']['_default'])
     rtree = nest(known) if known else {}
     ref = topo.resolve(schema, tp, ppath[:-1], rtree, writes=True)
     # declared nodes -> candidate defaults
@@ -119,20 +141,22 @@ def run(spec):
         cand.setdefault(ap, []).append(d)
     for i, p in enumerate(spec.get('owned', [])):
         cand.setdefault(tuple(p), []).append(lv[tuple(p)])
+    for mpath, msch, mtop, mstep in topo.member_parts(spec):
+        cand.setdefault(mpath[:-1] + ('x',), []).append(msch['M']['x']['_default'])
 
     results = {}
     for mode in ('parts', 'composite', 'store'):
-        procs, tops = parts()
+        procs, steps, tops = parts()
         try:
             if mode == 'parts':
-                e = Engine(processes=procs, topology=tops, initial_state=copy.deepcopy(given_tree) or None,
+                e = Engine(processes=procs, steps=steps, topology=tops, initial_state=copy.deepcopy(given_tree) or None,
                            display_info=False, emitter='null')
             elif mode == 'composite':
-                e = Engine(composite=Composite({'processes': procs, 'topology': tops,
+                e = Engine(composite=Composite({'processes': procs, 'steps': steps, 'topology': tops,
                                                 'state': copy.deepcopy(given_tree)}),
                            display_info=False, emitter='null')
             else:
-                c = Composite({'processes': procs, 'topology': tops})
+                c = Composite({'processes': procs, 'steps': steps, 'topology': tops})
                 e = Engine(store=c.generate_store({'initial_state': copy.deepcopy(given_tree)}),
                            display_info=False, emitter='null')
                 # the Composite can be used again: a second store built from it without an initial
@@ -191,8 +215,8 @@ def run(spec):
             node = node.setdefault(k, {})
         node[vp[-1]] = 70000 + j
         expect_init[ap] = 70000 + j
-    procs, tops = parts(own_initial=own)
-    comp = Composite({'processes': procs, 'topology': tops})
+    procs, steps, tops = parts(own_initial=own)
+    comp = Composite({'processes': procs, 'steps': steps, 'topology': tops})
     try:
         st = flat(comp.initial_state() or {})
         bad = {('/'.join(ap)): (v, st.get(ap, 'MISSING')) for ap, v in expect_init.items() if st.get(ap, 'MISSING') != v}
@@ -237,7 +261,7 @@ def conflict_case(V, spec):
     compatible (equal) declarations must not."""
     from vivarium.core.engine import Engine
     from vivarium.library.units import units
-    Probe = make_probe()
+    Probe = make_probe(False)
     key, same = spec['conflict']['key'], spec['conflict']['same']
     vals = {'_value': (5, 5 if same else 6),
             '_units': (units.fg, units.fg if same else units.s),
